@@ -22,3 +22,13 @@ func VerifCalcDifficultyHFX(config *params.ChainConfig, time uint64, parent, gra
 
 // VerifFakeDifficultyMode reports whether the FAKEPOWTEST environment switch is on (the harness refuses to run then).
 func VerifFakeDifficultyMode() bool { return fakedifficultymode }
+
+// VerifSetMaxUint256 replaces the numerator of the proof-of-work target (the package variable maxUint256 = 2^256) and
+// returns the previous value. The C14 harness uses it to place the target exactly on / next to a computed hash
+// (target = N / difficulty with N chosen after hashing), which no choice of difficulty alone can achieve because the
+// difficulty is part of the hashed header. Always restored by the caller.
+func VerifSetMaxUint256(n *big.Int) *big.Int {
+	old := maxUint256
+	maxUint256 = n
+	return old
+}
